@@ -55,8 +55,10 @@ type compiler struct {
 type execution struct{ blocks atomic.Int32 }
 
 // maxBlocksRunning bounds the blocks of one execution that run at a time:
-// nested ones, and those that other executions replay at that moment.
-const maxBlocksRunning = 10000
+// nested ones, and those that other executions replay at that moment (which
+// is why it is far above maxCallDepth: a level of such a recursion takes about
+// 4.5 KB of stack, so this is some 90 MB).
+const maxBlocksRunning = 20000
 
 // maxCallDepth is how deep the blocks of helpers, the calls of template
 // functions and the partials of one rendering may be nested while it runs.
